@@ -76,6 +76,8 @@ def raw_pack(entries):
         offsets.append(len(body))
         if e["kind"] == "full":
             body += varint_size(e["type"], len(e["data"])) + zlib.compress(e["data"])
+        elif e["kind"] == "lie":            # the header announces one size, the stream inflates to another
+            body += varint_size(e["type"], e["announced"]) + e["stream"]
         else:
             d = delta_bytes(e["base_data"], e["data"])
             if e["kind"] == "ofs":
@@ -322,6 +324,54 @@ def graph(req):
         shutil.rmtree(d, ignore_errors=True)
 
 
+_BOMBS = {}
+
+
+def bomb(req):
+    """an entry announcing `announced` bytes whose zlib stream inflates to `real` bytes of zeros, delivered in reads of at
+    most `seg` bytes: the reader has to give up once it has seen more than it was promised, not after inflating it all"""
+    import tracemalloc
+    stream = _BOMBS.get(req["real"])
+    if stream is None:
+        co = zlib.compressobj(9)
+        stream = _BOMBS[req["real"]] = b"".join(co.compress(bytes(1 << 20)) for _ in range(req["real"] >> 20)) + co.flush()
+    data, offs = raw_pack([{"kind": "full", "type": 3, "data": b"ordinary\n"}, {"kind": "lie", "type": 3, "announced": req["announced"], "stream": stream}])
+    path, seg = req["path"], req["seg"]
+    d = tempfile.mkdtemp(prefix="verif-c04b-", dir=os.environ.get("VERIF_SCRATCH") or None)
+    try:
+        f = io.BytesIO(data)
+
+        def read_some(n):
+            return f.read(min(n, seg) if seg else n)
+
+        def read_all(n):
+            return f.read(n)
+        store = MemoryObjectStore() if path == "memory" else DiskObjectStore.init(d)
+        before = set(store)
+
+        def run():
+            if path == "stream":
+                return sum(1 for _ in PackStreamReader(hashlib.sha1, read_all, read_some).read_objects())
+            if path in ("thin", "memory"):
+                return store.add_thin_pack(read_all, read_some)
+            pf, commit, abort = store.add_pack()
+            try:
+                pf.write(data)
+            except BaseException:
+                abort()
+                raise
+            return commit()
+        tracemalloc.start()
+        cls, v, dt = classify(run)
+        peak = tracemalloc.get_traced_memory()[1]
+        tracemalloc.stop()
+        changed = set(store) != before
+        store.close()
+        return {"cls": cls, "peak": peak, "secs": round(dt, 2), "changed": changed, "stream": len(stream)}
+    finally:
+        shutil.rmtree(d, ignore_errors=True)
+
+
 def crafted_read(req):
     """a pack whose entries are full objects or REF deltas naming one another by made-up ids, installed together with
     an index that lists those ids: reading entry i through the store must end, as the object or as an error"""
@@ -467,4 +517,4 @@ def sample_size(req):
     return {"size": len(sample_pack()[0])}
 
 
-HANDLERS = {"pack_sweep": pack_sweep, "graph": graph, "file_sweep": file_sweep, "sample_size": sample_size, "crafted_read": crafted_read, "sample_size_full": sample_size_full}
+HANDLERS = {"pack_sweep": pack_sweep, "graph": graph, "file_sweep": file_sweep, "sample_size": sample_size, "crafted_read": crafted_read, "bomb": bomb, "sample_size_full": sample_size_full}
